@@ -13,18 +13,18 @@ import (
 // ---- per-function prover -------------------------------------------------------
 
 type prover struct {
-	ix   *idxEngine
-	fn   *ssa.Function
-	ids  map[ssa.Value]int
-	rep  map[ssa.Value]ssa.Value // load -> representative load proven equal (same memory version)
-	fwd  map[ssa.Value]ssa.Value // load -> stored value it must equal (store->load forwarding)
-	lbIn map[string]bool          // recursion guard for lower bounds
-	blockIdx map[*ssa.BasicBlock]int
+	ix         *idxEngine
+	fn         *ssa.Function
+	ids        map[ssa.Value]int
+	rep        map[ssa.Value]ssa.Value // load -> representative load proven equal (same memory version)
+	fwd        map[ssa.Value]ssa.Value // load -> stored value it must equal (store->load forwarding)
+	lbIn       map[string]bool         // recursion guard for lower bounds
+	blockIdx   map[*ssa.BasicBlock]int
 	reachCache map[[2]int]bool
-	assume []constraint // extra assumptions (tabled premises) for this function
+	assume     []constraint // extra assumptions (tabled premises) for this function
 	boolAssume map[string]bool
-	quoGuard map[string]int
-	relCache map[string][]constraint
+	quoGuard   map[string]int
+	relCache   map[string][]constraint
 }
 
 func (ix *idxEngine) proverFor(fn *ssa.Function) *prover {
